@@ -166,6 +166,16 @@ SPECS = {
         nontrivial=lambda src, ops: sum(1 for o in ops for e in o.events if e.startswith("exrun")) >= 2,
         rule_nt="the recompute function of an expert node ran at least twice",
     ),
+    "C16": dict(
+        title="incremental-map per-key graph operators equal their definitions on every round",
+        streams=[("perkey", 1500, 60000, 0)],
+        proj=dict(keep_ops=("stabilise", "read"), keep_events=("perkeyfn", "inv", "invalidate", "bindrun"), dump=True),
+        oracle=O.oracle_perkey,
+        profiles=("debug", "release"), dump=True,
+        nontrivial=lambda src, ops: sum(1 for l in src if l.startswith("setmap")) >= 2
+        and any(e.startswith("perkeyfn") for o in ops for e in o.events),
+        rule_nt="the input map was edited at least twice and the per-key function ran",
+    ),
     "C20": dict(
         title="weak_memoize_fn: one shared node per live key, created in the scope of weak_memoize_fn",
         streams=[("memo", 900, 50000, 40), ("memo-dynamic", 300, 10000, 0)],
